@@ -268,7 +268,7 @@ def _splice_headers(P, rep, prefix, key, doing, with_decision):
                "whether the first expanded segment continues the current output segment is decided by comparing its address and type with the output's last segment" if ok else
                "the first expanded segment's address/type are not compared with the output's last segment (comparisons found: %s): after a macro that left another segment selected or moved the origin, the next expansion lands in the wrong place" % sorted(got),
                loc=loc_of(b["blocks"][bb]["tspan"]))
-    rep.floor("segments opened while %s" % doing, len(adds), 3 if with_decision else 2)
+    rep.floor("segments opened while %s" % doing, len(adds), 2)
 
 
 def run(tier):
@@ -423,7 +423,9 @@ def run(tier):
                    "inside the loop over the expanded segments the spliced segment is the loop's own element" if dep else
                    "inside the loop over the expanded segments the recursive splice is given a value that does not depend on the loop element%s: every further segment re-splices the same one" % (
                        " (a constant index into the vector)" if idx0 else ""), loc=loc_of(b["blocks"][bb]["tspan"]))
-        rep.ob("C09.splice|found", nloopcalls >= 1, "splice loop over the expanded segments found (%d recursive call(s) inside it)" % nloopcalls, kind="unprovable", nontrivial=False)
+        rep.ob("C09.splice|found", nloopcalls >= 1,
+               "the further code segments of an expansion are run through pass 0 again inside the loop over them (%d recursive call(s)): macro calls in them are expanded too" % nloopcalls if nloopcalls >= 1 else
+               "the code segments after the first one of a macro expansion are not run through pass 0 again (no recursive call inside the loop over them): a macro call written after a segment switch or `.org` in a macro body is never expanded")
     # ---- 4. undefined macro -> Err ; @n keys
     key = "builder::pass0::macro_expand"
     if key in P.body:
